@@ -23,7 +23,9 @@ struct BlockCase {
     int b = 2;
     ptrdiff_t nb = 0;          // block rows
     Csr<double> A;             // scalar matrix, n = nb*b, rows sorted by column, diagonal present
-    int kind = 0;              // 0: M (x) I_b, 1: M (x) Bm with SPD Bm, 2: block structured, random incomplete blocks
+    int kind = 0;              // 0: M (x) I_b, 1: M (x) Bm with SPD Bm, 2: block structured M-matrix with random incomplete blocks,
+                               // 3: as 2 but with entries of both signs (SPD by strict dominance, but not an M-matrix: not a model problem for AMG)
+    bool model() const { return kind != 3; }
     std::string family;
     long blocks = 0, incomplete = 0; // structurally present blocks / of those with a missing scalar entry
     long offdiag_incomplete = 0;
@@ -48,7 +50,7 @@ inline std::vector<double> gen_spd_block(Tape &t, int b, bool sparse) {
 
 inline BlockCase gen_block_case(Tape &t, int b, int nbmax) {
     BlockCase bc; bc.b = b;
-    bc.kind = static_cast<int>(t.u(0, 2));
+    bc.kind = static_cast<int>(t.u(0, 3));
     // families: path, grid2, grid2x9, grid3, er, tree, band, star, union (no bare diagonal: nothing to couple)
     Graph g = gen_graph(t, nbmax, 0, 8);
     bc.family = g.family; bc.nb = g.n;
@@ -68,6 +70,8 @@ inline BlockCase gen_block_case(Tape &t, int b, int nbmax) {
     } else {
         // symmetric block structured matrix on the graph: off-diagonal block W_IJ = -w * R with a random
         // structural mask (at least one entry), W_JI = W_IJ^T; diagonal blocks strictly dominant => SPD.
+        // kind 2: R > 0 (all off-diagonal entries negative: M-matrix); kind 3: R of both signs.
+        const bool mixed = bc.kind == 3;
         for (auto &e : g.edges) {
             ptrdiff_t I = e.first, J = e.second;
             double w = 0; for (ptrdiff_t j = M.ptr[I]; j < M.ptr[I + 1]; ++j) if (M.col[j] == J) w = -M.val[j];
@@ -78,7 +82,7 @@ inline BlockCase gen_block_case(Tape &t, int b, int nbmax) {
                 if (k == b - 1 && l == b - 1 && !any) present = true;
                 if (!present) continue;
                 any = true;
-                double r = t.uni(-1.0, 1.0); if (r == 0.0) r = -0.75;
+                double r = mixed ? t.uni(-1.0, 1.0) : -t.uni(0.1, 1.0); if (r == 0.0) r = -0.75;
                 rows[I * b + k][J * b + l] = w * r;
                 rows[J * b + l][I * b + k] = w * r;
             }
@@ -87,7 +91,7 @@ inline BlockCase gen_block_case(Tape &t, int b, int nbmax) {
             bool full = t.b();
             for (int k = 0; k < b; ++k) for (int l = k + 1; l < b; ++l) {
                 if (!full && t.b()) continue;
-                double r = t.uni(-1.0, 1.0); if (r == 0.0) r = 0.25;
+                double r = mixed ? t.uni(-1.0, 1.0) : -t.uni(0.1, 1.0); if (r == 0.0) r = 0.25;
                 rows[I * b + k][I * b + l] = r; rows[I * b + l][I * b + k] = r;
             }
         }
@@ -176,8 +180,9 @@ long double drift_allowance(const Csr<V> &A, const std::vector<V> &f, const std:
 template <class V>
 long double require_truthful(Ctx &c, const std::string &what, const Csr<V> &A, const std::vector<V> &f, const std::vector<V> &x,
                              size_t iters, double resid, double tol, size_t maxiter, bool need_converged = true) {
-    for (auto &v : x) VF_REQUIRE(std::isfinite(std::real(v)) && std::isfinite(std::imag(v)), what << ": non-finite solution entry");
+    if (!need_converged && !std::isfinite(resid)) { c.label("non-finite-residual-reported:" + what); return 0; } // divergence, reported as such
     VF_REQUIRE(std::isfinite(resid), what << ": reported residual is not finite");
+    for (auto &v : x) VF_REQUIRE(std::isfinite(std::real(v)) && std::isfinite(std::imag(v)), what << ": non-finite solution entry but finite reported residual " << resid);
     long double rho = true_relres(A, f, x);
     long double allow = drift_allowance(A, f, x, iters);
     VF_REQUIRE(rho <= static_cast<long double>(resid) + allow, what << ": true residual of the scalar system " << static_cast<double>(rho)
@@ -188,7 +193,7 @@ long double require_truthful(Ctx &c, const std::string &what, const Csr<V> &A, c
         VF_REQUIRE(resid <= tol, what << ": did not reach the tolerance " << tol << ": reported " << resid << " after " << iters << " iterations (maxiter " << maxiter << ")");
         VF_REQUIRE(iters <= maxiter, what << ": iteration count " << iters << " above maxiter " << maxiter);
     }
-    c.label(std::string("solved:") + what);
+    c.label(std::string(resid <= tol ? "solved:" : "not-converged-but-truthful:") + what);
     return rho;
 }
 
